@@ -16,6 +16,9 @@ def constructor_of(w, adt):
     """The function(s) that build `adt` with a struct aggregate covering all fields."""
     out = []
     for fn, body in w.bodies.items():
+        ins = (w.facts.fns.get(fn) or {}).get("inputs", [])
+        if ins and (ins[0].get("inner") or {}).get("adt") == adt:
+            continue          # a method rebuilding the value from `self` (e.g. struct-update in a reset) is not the constructor
         for b in body.normal_blocks():
             for i, s in enumerate(body.blocks[b]["stmts"]):
                 if s["k"] == "assign" and s["rv"]["k"] == "aggregate" and s["rv"].get("adt") == adt:
@@ -82,10 +85,11 @@ def run(ctx, w):
     must = set()
     for h in handlers:
         must |= w.mustwrite.must(h)
+    whole = ("arg1",) in must
     for f in fields:
         if f in exempt:
             continue
-        ok = ("arg1", f) in must
+        ok = ("arg1", f) in must or whole
         ctx.check(
             ok, "H1", f,
             "field `%s` of %s is not assigned on every path of the hard reset (%s): after ESC c it keeps "
@@ -108,6 +112,14 @@ def run(ctx, w):
         if t[0] == "load" and t[1][0].startswith("arg"):
             mapping[t] = ("load", ("arg1", nm))
     sites = w.assign_sites(reach, lambda p: len(p) == 2 and p[0] == "arg1")
+    # `*self = Terminal { f: v, ..Terminal::new(args) }`: one site per field of the aggregate
+    for fn, pt, p, term in w.assign_sites(reach, lambda p: p == ("arg1",)):
+        t = WD.strip_names(term)
+        if t[0] == "adt" and t[1] == term_ty:
+            for nm, ft in zip(t[3], t[4]):
+                sites.append((fn, pt, ("arg1", nm), ft))
+        else:
+            ctx.violation("H2", "whole@" + fn, "%s replaces the whole terminal by %s, which is not a struct literal" % (fn, w.tstr(fn, term)), loc=w.stmt_loc(fn, pt))
     seen = set()
     for fn, pt, p, term in sites:
         f = p[1]
@@ -115,6 +127,17 @@ def run(ctx, w):
             continue
         want = WD.strip_names(WD.subst_term(ctor_terms[f], mapping))
         got = WD.strip_names(term)
+        # a field copied out of a fresh `Terminal::new(<current size>, <configured limit>)` is the constructor's value
+        if got[0] == "field" and got[2] == f and got[1][0] == "call" and got[1][1] == ctor_fn:
+            cargs = got[1][2]
+            params = [WD.strip_names(WD.subst_term(("load", ("arg%d" % (i + 1),)), {})) for i in range(len(cargs))]
+            amap = {}
+            for i, a in enumerate(cargs):
+                if a[0] == "tuple":
+                    for j, el in enumerate(a[1]):
+                        amap[("load", ("arg%d" % (i + 1), str(j)))] = el
+                amap[("load", ("arg%d" % (i + 1),))] = a
+            got = WD.strip_names(WD.subst_term(ctor_terms[f], amap))
         seen.add(f)
         ctx.check(
             want == got, "H2", "%s@%s" % (f, fn),
